@@ -50,52 +50,52 @@ inline void register_part3() {
   reg("GravityModel::U", {CART, CART, CART}, "rrrr", false, [](A a, O o) { o.r[0] = W().grav->U(a[0], a[1], a[2], o.r[1], o.r[2], o.r[3]); });
   reg("GravityModel::Phi", {CART, CART}, "rrr", false, [](A a, O o) { o.r[0] = W().grav->Phi(a[0], a[1], o.r[1], o.r[2]); });
   reg("GravityModel::Circle", {LAT, HGT, LON}, "rrrrrrrr", false, [](A a, O o) { GravityCircle c = W().grav->Circle(a[0], a[1]); o.r[0] = c.Gravity(a[2], o.r[1], o.r[2], o.r[3]); o.r[4] = c.GeoidHeight(a[2]); c.SphericalAnomaly(a[2], o.r[5], o.r[6], o.r[7]); });
-  reg("Geoid::operator()", {LAT, LON}, "rr", false, [](A a, O o) { o.r[0] = (*W().geoid)(a[0], a[1]); o.r[1] = (*W().geoidc)(a[0], a[1]); });
-  reg("Geoid::ConvertHeight", {LAT, LON, HGT}, "rr", false, [](A a, O o) { o.r[0] = W().geoid->ConvertHeight(a[0], a[1], a[2], Geoid::GEOIDTOELLIPSOID); o.r[1] = W().geoidc->ConvertHeight(a[0], a[1], a[2], Geoid::ELLIPSOIDTOGEOID); });
-  reg("Geoid::CacheArea", {LAT, LON, LAT, LON}, "rrrr", true, [](A a, O o) { W().geoidc->CacheArea(a[0], a[1], a[2], a[3]); o.r[0] = W().geoidc->CacheWest(); o.r[1] = W().geoidc->CacheEast(); o.r[2] = W().geoidc->CacheNorth(); o.r[3] = W().geoidc->CacheSouth(); W().geoidc->CacheClear(); });
+  reg("Geoid::operator()", {LAT, LON}, "rr", true, [](A a, O o) { o.r[0] = (*W().geoid)(a[0], a[1]); o.r[1] = (*W().geoidc)(a[0], a[1]); });
+  reg("Geoid::ConvertHeight", {LAT, LON, HGT}, "rr", true, [](A a, O o) { o.r[0] = W().geoid->ConvertHeight(a[0], a[1], a[2], Geoid::GEOIDTOELLIPSOID); o.r[1] = W().geoidc->ConvertHeight(a[0], a[1], a[2], Geoid::ELLIPSOIDTOGEOID); });
+  reg("Geoid::CacheArea", {LAT, LON, LAT, LON}, "xxxx", true, [](A a, O o) { W().geoidc->CacheArea(a[0], a[1], a[2], a[3]); o.r[0] = W().geoidc->CacheWest(); o.r[1] = W().geoidc->CacheEast(); o.r[2] = W().geoidc->CacheNorth(); o.r[3] = W().geoidc->CacheSouth(); W().geoidc->CacheClear(); });
   // ---------------- UTM/UPS, MGRS (validating)
-  reg("UTMUPS::StandardZone", {LAT, LON, SETZ}, "z", true, [](A a, O o) { o.i[0] = UTMUPS::StandardZone(a[0], a[1], (int)a[2]); });
-  reg("UTMUPS::Forward", {LAT, LON, SETZ}, "zbrrrr", true, [](A a, O o) { UTMUPS::Forward(a[0], a[1], o.i[0], o.b[0], o.r[0], o.r[1], o.r[2], o.r[3], (int)a[2], false); });
+  reg("UTMUPS::StandardZone", {LAT, LON, SETZ}, "z", true, [](A a, O o) { o.i[0] = UTMUPS::StandardZone(a[0], a[1], I(a[2])); });
+  reg("UTMUPS::Forward", {LAT, LON, SETZ}, "zbrrrr", true, [](A a, O o) { UTMUPS::Forward(a[0], a[1], o.i[0], o.b[0], o.r[0], o.r[1], o.r[2], o.r[3], I(a[2]), false); });
   reg("UTMUPS::Forward(mgrslimits)", {LAT, LON}, "zbrr", true, [](A a, O o) { UTMUPS::Forward(a[0] * 0.9, a[1], o.i[0], o.b[0], o.r[0], o.r[1], UTMUPS::STANDARD, true); });
-  reg("UTMUPS::Reverse(utm)", {ZONE, UTMX, UTMY}, "rrrr", true, [](A a, O o) { UTMUPS::Reverse((int)a[0], true, a[1], a[2], o.r[0], o.r[1], o.r[2], o.r[3], false); });
+  reg("UTMUPS::Reverse(utm)", {ZONE, UTMX, UTMY}, "rrrr", true, [](A a, O o) { UTMUPS::Reverse(I(a[0]), true, a[1], a[2], o.r[0], o.r[1], o.r[2], o.r[3], false); });
   reg("UTMUPS::Reverse(ups)", {UPSX, UPSX}, "rrrr", true, [](A a, O o) { UTMUPS::Reverse(0, false, a[0], a[1], o.r[0], o.r[1], o.r[2], o.r[3], true); });
-  reg("UTMUPS::Transfer", {ZONE, UTMX, UTMY}, "rrz", true, [](A a, O o) { int z = (int)a[0]; UTMUPS::Transfer(z, true, a[1], a[2], z < 60 ? z + 1 : 59, true, o.r[0], o.r[1], o.i[0]); });
-  reg("UTMUPS::Transfer(hemisphere)", {ZONE, UTMX, UTMY}, "rrz", true, [](A a, O o) { int z = (int)a[0]; UTMUPS::Transfer(z, true, a[1], a[2], z, false, o.r[0], o.r[1], o.i[0]); });
-  reg("UTMUPS::EncodeZone", {ZONE}, "nn", true, [](A a, O o) { std::string s0 = UTMUPS::EncodeZone((int)a[0], true, true), s1 = UTMUPS::EncodeZone((int)a[0], false, false); o.s[0] = s0; o.s[1] = s1; });
-  reg("UTMUPS::EPSG", {EPSG, ZONE}, "ibi", true, [](A a, O o) { UTMUPS::DecodeEPSG((int)a[0], o.i[0], o.b[0]); o.i[1] = UTMUPS::EncodeEPSG((int)a[1], true); });
-  reg("MGRS::Forward", {ZONE, UTMX, UTMY, MPREC}, "s", true, [](A a, O o) { MGRS::Forward((int)a[0], true, a[1], a[2], (int)a[3], o.s[0]); });
-  reg("MGRS::Forward(ups)", {UPSX, UPSX, MPREC}, "s", true, [](A a, O o) { MGRS::Forward(0, g_e != 1, a[0], a[1], (int)a[2], o.s[0]); });
-  reg("MGRS::Forward(lat)", {LAT, LON, MPREC}, "s", true, [](A a, O o) { int z; bool n; real x, y; UTMUPS::Forward(a[0] * 0.88, a[1], z, n, x, y); MGRS::Forward(z, n, x, y, a[0] * 0.88, (int)a[2], o.s[0]); });
+  reg("UTMUPS::Transfer", {ZONE, UTMX, UTMY}, "rrz", true, [](A a, O o) { int z = I(a[0]); UTMUPS::Transfer(z, true, a[1], a[2], z < 60 ? z + 1 : 59, true, o.r[0], o.r[1], o.i[0]); });
+  reg("UTMUPS::Transfer(hemisphere)", {ZONE, UTMX, UTMY}, "rrz", true, [](A a, O o) { int z = I(a[0]); UTMUPS::Transfer(z, true, a[1], a[2], z, false, o.r[0], o.r[1], o.i[0]); });
+  reg("UTMUPS::EncodeZone", {ZONE}, "nn", true, [](A a, O o) { std::string s0 = UTMUPS::EncodeZone(I(a[0]), true, true), s1 = UTMUPS::EncodeZone(I(a[0]), false, false); o.s[0] = s0; o.s[1] = s1; });
+  reg("UTMUPS::EPSG", {EPSG, ZONE}, "ibi", true, [](A a, O o) { UTMUPS::DecodeEPSG(I(a[0]), o.i[0], o.b[0]); o.i[1] = UTMUPS::EncodeEPSG(I(a[1]), true); });
+  reg("MGRS::Forward", {ZONE, UTMX, UTMY, MPREC}, "s", true, [](A a, O o) { MGRS::Forward(I(a[0]), true, a[1], a[2], I(a[3]), o.s[0]); });
+  reg("MGRS::Forward(ups)", {UPSX, UPSX, MPREC}, "s", true, [](A a, O o) { MGRS::Forward(0, g_e != 1, a[0], a[1], I(a[2]), o.s[0]); });
+  reg("MGRS::Forward(lat)", {LAT, LON, MPREC}, "s", true, [](A a, O o) { int z; bool n; real x, y; UTMUPS::Forward(a[0] * 0.88, a[1], z, n, x, y); MGRS::Forward(z, n, x, y, a[0] * 0.88, I(a[2]), o.s[0]); });
   reg("MGRS::Forward(lat arg)", {LAT}, "s", true, [](A a, O o) { MGRS::Forward(38, true, 444500.0, 3684500.0, a[0], 3, o.s[0]); });
   // ---------------- grid codes
-  reg("Geohash::Forward", {LAT, LON, GLEN}, "s", true, [](A a, O o) { Geohash::Forward(a[0], a[1], (int)a[2], o.s[0]); });
-  reg("Geohash::resolutions", {GLEN, POS, POS}, "rrii", false, [](A a, O o) { o.r[0] = Geohash::LatitudeResolution((int)a[0]); o.r[1] = Geohash::LongitudeResolution((int)a[0]); o.i[0] = Geohash::GeohashLength(a[1] * 1e-3); o.i[1] = Geohash::GeohashLength(a[1] * 1e-3, a[2] * 1e-3); });
-  reg("Geohash::DecimalPrecision", {GLEN}, "i", false, [](A a, O o) { o.i[0] = Geohash::DecimalPrecision((int)a[0]); });
-  reg("GARS::Forward", {LAT, LON, GPREC}, "s", true, [](A a, O o) { GARS::Forward(a[0], a[1], (int)a[2], o.s[0]); });
-  reg("GARS::Resolution", {GPREC, POS}, "ri", false, [](A a, O o) { o.r[0] = GARS::Resolution((int)a[0]); o.i[0] = GARS::Precision(a[1] * 1e-2); });
-  reg("Georef::Forward", {LAT, LON, MPREC}, "s", true, [](A a, O o) { Georef::Forward(a[0], a[1], (int)a[2], o.s[0]); });
-  reg("Georef::Resolution", {MPREC, POS}, "ri", false, [](A a, O o) { o.r[0] = Georef::Resolution((int)a[0]); o.i[0] = Georef::Precision(a[1] * 1e-3); });
+  reg("Geohash::Forward", {LAT, LON, GLEN}, "s", true, [](A a, O o) { Geohash::Forward(a[0], a[1], I(a[2]), o.s[0]); });
+  reg("Geohash::resolutions", {GLEN, POS, POS}, "rrii", false, [](A a, O o) { o.r[0] = Geohash::LatitudeResolution(I(a[0])); o.r[1] = Geohash::LongitudeResolution(I(a[0])); o.i[0] = Geohash::GeohashLength(a[1] * 1e-3); o.i[1] = Geohash::GeohashLength(a[1] * 1e-3, a[2] * 1e-3); });
+  reg("Geohash::DecimalPrecision", {GLEN}, "i", false, [](A a, O o) { o.i[0] = Geohash::DecimalPrecision(I(a[0])); });
+  reg("GARS::Forward", {LAT, LON, GPREC}, "s", true, [](A a, O o) { GARS::Forward(a[0], a[1], I(a[2]), o.s[0]); });
+  reg("GARS::Resolution", {GPREC, POS}, "ri", false, [](A a, O o) { o.r[0] = GARS::Resolution(I(a[0])); o.i[0] = GARS::Precision(a[1] * 1e-2); });
+  reg("Georef::Forward", {LAT, LON, MPREC}, "s", true, [](A a, O o) { Georef::Forward(a[0], a[1], I(a[2]), o.s[0]); });
+  reg("Georef::Resolution", {MPREC, POS}, "ri", false, [](A a, O o) { o.r[0] = Georef::Resolution(I(a[0])); o.i[0] = Georef::Precision(a[1] * 1e-3); });
   reg("OSGB::Forward", {LAT, LON}, "rrrr", false, [](A a, O o) { OSGB::Forward(50 + a[0] / 20, a[1] / 40, o.r[0], o.r[1], o.r[2], o.r[3]); });
   reg("OSGB::Forward(raw)", {LAT, LON}, "rr", false, [](A a, O o) { OSGB::Forward(a[0], a[1], o.r[0], o.r[1]); });
   reg("OSGB::Reverse", {UTMX, UTMX}, "rrrr", false, [](A a, O o) { OSGB::Reverse(a[0], a[1], o.r[0], o.r[1], o.r[2], o.r[3]); });
-  reg("OSGB::GridReference", {UTMX, UTMX, MPREC}, "s", true, [](A a, O o) { OSGB::GridReference(a[0], a[1], (int)a[2], o.s[0]); });
+  reg("OSGB::GridReference", {UTMX, UTMX, MPREC}, "s", true, [](A a, O o) { OSGB::GridReference(a[0], a[1], I(a[2]), o.s[0]); });
   // ---------------- DMS numeric sides
-  reg("DMS::Encode(prec,ind)", {AZI, PREC}, "dddd", true, [](A a, O o) { std::string s0 = DMS::Encode(a[0], (unsigned)(int)a[1], DMS::NONE), s1 = DMS::Encode(a[0] / 2, (unsigned)(int)a[1], DMS::LATITUDE), s2 = DMS::Encode(a[0], (unsigned)(int)a[1], DMS::LONGITUDE, ':'), s3 = DMS::Encode(a[0], (unsigned)(int)a[1], DMS::AZIMUTH); o.s[0] = s0; o.s[1] = s1; o.s[2] = s2; o.s[3] = s3; });
-  reg("DMS::Encode(trailing)", {AZI, PREC}, "ddd", true, [](A a, O o) { std::string s0 = DMS::Encode(a[0], DMS::DEGREE, (unsigned)(int)a[1], DMS::NUMBER), s1 = DMS::Encode(a[0], DMS::MINUTE, (unsigned)(int)a[1], DMS::LONGITUDE), s2 = DMS::Encode(a[0] / 2, DMS::SECOND, (unsigned)(int)a[1], DMS::LATITUDE, ':'); o.s[0] = s0; o.s[1] = s1; o.s[2] = s2; });
+  reg("DMS::Encode(prec,ind)", {AZI, PREC}, "dddd", true, [](A a, O o) { std::string s0 = DMS::Encode(a[0], (unsigned)I(a[1]), DMS::NONE), s1 = DMS::Encode(a[0] / 2, (unsigned)I(a[1]), DMS::LATITUDE), s2 = DMS::Encode(a[0], (unsigned)I(a[1]), DMS::LONGITUDE, ':'), s3 = DMS::Encode(a[0], (unsigned)I(a[1]), DMS::AZIMUTH); o.s[0] = s0; o.s[1] = s1; o.s[2] = s2; o.s[3] = s3; });
+  reg("DMS::Encode(trailing)", {AZI, PREC}, "ddd", true, [](A a, O o) { std::string s0 = DMS::Encode(a[0], DMS::DEGREE, (unsigned)I(a[1]), DMS::NUMBER), s1 = DMS::Encode(a[0], DMS::MINUTE, (unsigned)I(a[1]), DMS::LONGITUDE), s2 = DMS::Encode(a[0] / 2, DMS::SECOND, (unsigned)I(a[1]), DMS::LATITUDE, ':'); o.s[0] = s0; o.s[1] = s1; o.s[2] = s2; });
   reg("DMS::Encode(d,m,s)", {AZI}, "rrrrr", false, [](A a, O o) { DMS::Encode(a[0], o.r[0], o.r[1]); DMS::Encode(a[0], o.r[2], o.r[3], o.r[4]); });
   reg("DMS::Decode(d,m,s)", {AZI, GEN, GEN}, "r", false, [](A a, O o) { o.r[0] = DMS::Decode(a[0], a[1], a[2]); });
   // ---------------- GeoCoords numeric constructors and representations
-  reg("GeoCoords(lat,lon)", {LAT, LON, SETZ}, "rrrrrrzssdd", true, [](A a, O o) { GeoCoords g(a[0] * 0.93, a[1], (int)a[2]);
+  reg("GeoCoords(lat,lon)", {LAT, LON, SETZ}, "rrrrrrzssdd", true, [](A a, O o) { GeoCoords g(a[0] * 0.93, a[1], I(a[2]));
     std::string m = g.MGRSRepresentation(2), u = g.UTMUPSRepresentation(1), ge = g.GeoRepresentation(3), d = g.DMSRepresentation(1);
     o.r[0] = g.Latitude(); o.r[1] = g.Longitude(); o.r[2] = g.Easting(); o.r[3] = g.Northing(); o.r[4] = g.Convergence(); o.r[5] = g.Scale();
     o.i[0] = g.Zone(); o.s[0] = m; o.s[1] = u; o.s[2] = ge; o.s[3] = d; });
-  reg("GeoCoords(zone,x,y)", {ZONE, UTMX, UTMY}, "rrrrs", true, [](A a, O o) { GeoCoords g((int)a[0], true, a[1], a[2]); std::string m = g.AltMGRSRepresentation(1); o.r[0] = g.Latitude(); o.r[1] = g.Longitude(); o.r[2] = g.Convergence(); o.r[3] = g.Scale(); o.s[0] = m; });
-  reg("GeoCoords::representations(prec)", {PREC}, "nnnn", true, [](A a, O o) { GeoCoords g(33.3, 44.4); int p = (int)a[0]; std::string s0 = g.GeoRepresentation(p), s1 = g.DMSRepresentation(p), s2 = g.MGRSRepresentation(p), s3 = g.UTMUPSRepresentation(p); o.s[0] = s0; o.s[1] = s1; o.s[2] = s2; o.s[3] = s3; });
-  reg("GeoCoords::SetAltZone", {ZONE}, "zrr", true, [](A a, O o) { GeoCoords g(33.3, 44.4); g.SetAltZone((int)(a[0] - 60 * std::floor(a[0] / 60)) % 3 + 37); o.i[0] = g.AltZone(); o.r[0] = g.AltEasting(); o.r[1] = g.AltNorthing(); });
+  reg("GeoCoords(zone,x,y)", {ZONE, UTMX, UTMY}, "rrrrs", true, [](A a, O o) { GeoCoords g(I(a[0]), true, a[1], a[2]); std::string m = g.AltMGRSRepresentation(1); o.r[0] = g.Latitude(); o.r[1] = g.Longitude(); o.r[2] = g.Convergence(); o.r[3] = g.Scale(); o.s[0] = m; });
+  reg("GeoCoords::representations(prec)", {PREC}, "nnnn", true, [](A a, O o) { GeoCoords g(33.3, 44.4); int p = I(a[0]); std::string s0 = g.GeoRepresentation(p), s1 = g.DMSRepresentation(p), s2 = g.MGRSRepresentation(p), s3 = g.UTMUPSRepresentation(p); o.s[0] = s0; o.s[1] = s1; o.s[2] = s2; o.s[3] = s3; });
+  reg("GeoCoords::SetAltZone", {ZONE}, "zrr", true, [](A a, O o) { GeoCoords g(33.3, 44.4); g.SetAltZone(((I(a[0]) % 3) + 3) % 3 + 37); o.i[0] = g.AltZone(); o.r[0] = g.AltEasting(); o.r[1] = g.AltNorthing(); });
   // ---------------- Utility dates
-  reg("Utility::day", {DEG, DEG, DEG}, "iiii", false, [](A a, O o) { int y = 1990 + (int)a[0], m = 1 + (int)a[1], d = 1 + (int)a[2]; o.i[0] = Utility::day(y, m, d); Utility::date(o.i[0], o.i[1], o.i[2], o.i[3]); });
-  reg("Utility::day(check)", {DEG, DEG, DEG}, "ii", true, [](A a, O o) { int y = 1990 + (int)a[0], m = 1 + (int)a[1], d = 1 + (int)a[2]; int t = Utility::day(y, m, d, true); o.i[0] = t; o.i[1] = Utility::dow(y, m, d); });
-  reg("Utility::str", {GEN, PREC}, "nn", false, [](A a, O o) { o.s[0] = Utility::str(a[0], (int)a[1]); o.s[1] = Utility::str((int)a[1]); });
+  reg("Utility::day", {YEAR, MON, DAY}, "iiii", false, [](A a, O o) { int y = I(a[0]), m = I(a[1]), d = I(a[2]); o.i[0] = Utility::day(y, m, d); Utility::date(o.i[0], o.i[1], o.i[2], o.i[3]); });
+  reg("Utility::day(check)", {YEAR, MON, DAY}, "ii", true, [](A a, O o) { int y = I(a[0]), m = I(a[1]), d = I(a[2]); int t = Utility::day(y, m, d, true); o.i[0] = t; o.i[1] = Utility::dow(y, m, d); });
+  reg("Utility::str", {GEN}, "nn", false, [](A a, O o) { o.s[0] = Utility::str(a[0], 6); o.s[1] = Utility::str(a[0]); });
 }
 
 }  // namespace c13
